@@ -200,6 +200,25 @@ pub fn run_c17(tier: Tier) -> Report {
             }
         }
     }
+    // the repository's own corpus programs on their declared input objects
+    let corpus = crate::corpus::load();
+    let mut corpus_accepted = 0u64;
+    for c in &corpus {
+        if !crate::corpus::deterministic(&c.src) {
+            continue;
+        }
+        let Some(program) = compile(&c.src) else { continue };
+        corpus_accepted += 1;
+        let md = vrlx::empty_object();
+        let base = run(&program, &c.object, &md, vec![], true);
+        let k = base.ops.len().min(10);
+        longest = longest.max(base.ops.len());
+        total_ops += base.ops.len() as u64;
+        for set in choose(k, max_faults.min(2)) {
+            cases.push(json!({"program": c.src, "corpus_file": c.name, "event": vv::enc(&c.object), "metadata": {}, "via": "runtime", "faults": set}));
+        }
+    }
+    rep.set("corpus_programs_accepted", corpus_accepted);
     rep.set("programs_enumerated", progs.len() as u64);
     rep.set("programs_accepted", accepted);
     rep.set("longest_operation_trace", longest as u64);
